@@ -13,6 +13,7 @@ CLAIMED = {
     'C05': ('proof', 'Exceptional postconditions (refused play: ValueError and every field unchanged) and the partition invariant (four hands and the played cards pairwise disjoint, |played| = number of plays, union conserved) proved for PlayingPhaseWithHands.play_card_by_player from an arbitrary invariant state with a symbolic card (complete 52-way substitution split for the counting conjunct); observer variant proved for own/dummy hand branches; lemma: 52 plays => all hands empty.', '4 (C05)'),
     'C06': ('proof', 'available_cards / current_available_cards* proved pointwise (52 guards) equal to the follow-suit rule for every hand (any subset of the pack) and every led card; subset / non-empty lemmas; RandomPlay.play proved to return a playable card under the assumed random.choice contract.', '4 (C06)'),
     'C07': ('proof', 'calc_bid_score / calc_score and the vulnerability chain (Contract.is_vul -> Player.is_vul -> Pair.is_vul) are proved equal to an independent Law-77 formula oracle for the whole finite domain in a handful of symbolic queries; every callee is used by contract and its contract is proved in the same run.', '4 (C07)'),
+    'C14': ('proof', 'Every encoder is proved equal to a canonical-form spec (PBN text: spade-heart-diamond-club, high to low, void = empty field, unknown = "-"; binary / numpy slots; ascending JSON card texts) and every decoder to an independent field-by-field reader, for ALL deals at once (52 Boolean guards per hand; PBN text as a structured string matched by a symbolic regex matcher following re\'s priority order); round-trip lemmas through the contracts; random dealer proved disjoint / covering / 13 each under the assumed permutation contract of random.shuffle.', '4 (C14)'),
     'C15': ('proof', 'Every converter is proved equal to a spec table over its complete finite domain (symbolic for arithmetic converters, finite case split + constant folding for text converters); inverse/injectivity lemmas are proved over the spec tables.', '4 (C15)'),
     'C16': ('proof', 'point_difference_to_imps is proved equal to the official scale for every (unbounded) integer; monotonicity, oddness and range are lemmas over that contract; score_to_imp is proved by contract.', '4 (C16)'),
 }
